@@ -66,7 +66,7 @@ func c11Config(opts int) sonic.API {
 func drawC11(t *rapid.T) Case {
 	c := &C11Case{C01Case: *drawDecodeCase(t)}
 	c.Opts = rapid.IntRange(0, 127).Draw(t, "opts")
-	c.Cross = rapid.IntRange(0, 9).Draw(t, "cross") == 0
+	c.Cross = rapid.IntRange(0, 29).Draw(t, "cross") == 0
 	// bias to the fast-map shapes: interface{}, map[string]interface{}, []interface{}
 	if rapid.IntRange(0, 3).Draw(t, "efaceroot") == 0 {
 		switch rapid.IntRange(0, 2).Draw(t, "efacekind") {
@@ -186,6 +186,10 @@ func (c *C11Case) Run() (res stat.Result) {
 			verifhook.SetDecoder(false, false)
 			remote, err := w.ask("C01", &c.C01Case)
 			res.Sub++
+			if _, ok := err.(errWorkerTimeout); ok {
+				res.Inconclusive = "C11 worker: " + err.Error()
+				return
+			}
 			if err != nil {
 				if strings.Contains(err.Error(), "should always be valid json here") && knownListed("C07-optdec-asraw-panic") {
 					res.Known = append(res.Known, "C07-optdec-asraw-panic")
